@@ -1,6 +1,7 @@
 package interp
 
 import (
+	"strings"
 	"go/types"
 
 	"gosym/sym"
@@ -55,7 +56,30 @@ func registerCtxModel(ex *Explorer) {
 		}
 		return in.F.False
 	}
+	// viper stand-in: one key/value map per path (Set, then GetBool/GetString/... of the same key
+	// return what was set); every other key reads as the zero value
 	ex.pkgIntercepts["github.com/spf13/viper"] = func(in *Interp, fn *ssa.Function, a []Value) Value {
+		name := fn.Name()
+		if fn.Signature.Recv() != nil && len(a) >= 2 {
+			if key, ok := a[1].(string); ok {
+				if name == "Set" && len(a) == 3 {
+					if in.viperKV == nil {
+						in.viperKV = map[string]Value{}
+					}
+					v := a[2]
+					if iv, ok := v.(IfaceVal); ok {
+						v = iv.V
+					}
+					in.viperKV[strings.ToLower(key)] = v
+					return nil
+				}
+				if strings.HasPrefix(name, "Get") && len(a) == 2 {
+					if v, ok := in.viperKV[strings.ToLower(key)]; ok && fn.Signature.Results().Len() == 1 {
+						return v
+					}
+				}
+			}
+		}
 		return in.zeroResults(fn)
 	}
 	// vrt.CrashAt(k): the k-th DB-API call (counted from NewDB) kills the process
